@@ -730,6 +730,20 @@ def _two_cycle_wbs():
                         'wb': {'k': 'wb', 'cells': [list(S) + c for c in cells], 'names': [], 'strict_either': True,
                                'orders': [list(range(m)), list(range(m))[::-1], list(range(m))[3:] + list(range(m))[:3]],
                                'paths': ['dict', 'file'], 'sheet_order': ['S']}})
+    # one cycle, two cells that can each break it (both guard their back edge), guards set differently; the two cells at
+    # many different addresses, because which of them the analysis meets first follows the iteration order of a set of node
+    # ids (added after seed c10-a-r6: under one pinned hash seed, other addresses are other orders)
+    spots = [((2, 1), (3, 1)), ((3, 1), (2, 1)), ((2, 2), (2, 3)), ((5, 9), (4, 2)), ((1, 7), (9, 1)), ((6, 6), (6, 7)),
+             ((3, 4), (8, 2)), ((9, 9), (1, 2)), ((4, 4), (5, 5)), ((2, 8), (3, 3)), ((7, 1), (1, 9)), ((8, 8), (2, 6))]
+    for si, (pb, pc) in enumerate(spots):
+        for a1, a2 in ((False, True), (True, False)):
+            cells = [[10, 1, a1], [10, 2, a2],
+                     [pb[0], pb[1], ['IF', Rr(10, 1), Rr(pc[0], pc[1]), 1]], [pc[0], pc[1], ['IF', Rr(10, 2), Rr(pb[0], pb[1]), 2]],
+                     [11, 5, ['+', Rr(pc[0], pc[1]), 1]]]
+            m = len(cells)
+            out.append({'k': 'wb2', 'variant': 'two-guards-one-cycle|spot=%d|a1=%s|a2=%s' % (si, a1, a2),
+                        'wb': {'k': 'wb', 'cells': [list(S) + c for c in cells], 'names': [], 'strict_either': True,
+                               'orders': [list(range(m)), list(range(m))[::-1]], 'paths': ['dict'], 'sheet_order': ['S']}})
     # an unavoidable cycle through a rectangle one of whose OTHER members is the end of a long ordinary chain
     # (added after seed c10-a-r4): the chain and that member keep their ordinary values
     for depth in (3, 6, 10, 14):
